@@ -24,6 +24,7 @@ package ipfix
 
 import (
 	"encoding/binary"
+	"encoding/hex"
 	"encoding/json"
 	"hash/fnv"
 	"io/ioutil"
@@ -47,7 +48,7 @@ type Data struct {
 
 // TemplatesShard represents a shard
 type TemplatesShard struct {
-	Templates map[uint32]Data
+	Templates map[string]Data
 	sync.RWMutex
 }
 type memCacheDisk struct {
@@ -73,7 +74,7 @@ func GetCache(cacheFile string) MemCache {
 
 	m := make(MemCache, shardNo)
 	for i := 0; i < shardNo; i++ {
-		m[i] = &TemplatesShard{Templates: make(map[uint32]Data)}
+		m[i] = &TemplatesShard{Templates: make(map[string]Data)}
 	}
 
 	return m
@@ -93,7 +94,9 @@ func (m MemCache) valid() bool {
 	return true
 }
 
-func (m MemCache) getShard(id uint16, addr net.IP) (*TemplatesShard, uint32) {
+// getShard returns the shard of (addr, id) and the key of the pair inside it:
+// the hex text of the address octets followed by the template id
+func (m MemCache) getShard(id uint16, addr net.IP) (*TemplatesShard, string) {
 	b := make([]byte, 2)
 	binary.BigEndian.PutUint16(b, id)
 	key := append(addr, b...)
@@ -102,7 +105,7 @@ func (m MemCache) getShard(id uint16, addr net.IP) (*TemplatesShard, uint32) {
 	hash.Write(key)
 	hSum32 := hash.Sum32()
 
-	return m[uint(hSum32)%uint(shardNo)], hSum32
+	return m[uint(hSum32)%uint(shardNo)], hex.EncodeToString(key)
 }
 
 func (m MemCache) insert(id uint16, addr net.IP, tr TemplateRecord) {
